@@ -10,6 +10,7 @@ mod c06;
 mod c07;
 mod c08;
 mod c12;
+mod c13;
 mod c14;
 mod inputs;
 mod loader;
@@ -21,6 +22,42 @@ mod c19;
 mod c20;
 
 use engine::*;
+
+fn replay_dispatch(ctx: &Ctx, id: &str, case: &serde_json::Value) {
+    match id {
+                        "C01" => c01::replay(ctx, &case),
+                        "C02" => c02::replay(ctx, &case),
+                        "C08" => c08::replay(ctx, &case),
+                        "C20" => c20::replay(ctx, &case),
+                        "C03" => histprops::replay(ctx, histprops::Prop::C03, &case),
+                        "C04" => histprops::replay(ctx, histprops::Prop::C04, &case),
+                        "C05" => histprops::replay(ctx, histprops::Prop::C05, &case),
+                        "C10" => histprops::replay(ctx, histprops::Prop::C10, &case),
+                        "C11" => histprops::replay(ctx, histprops::Prop::C11, &case),
+                        "C12" => c12::replay(ctx, &case),
+                        "C06" => c06::replay(ctx, &case),
+                        "C14" => c14::replay(ctx, &case),
+                        "C07" => c07::replay(ctx, &case),
+                        "C13" => c13::replay(ctx, &case),
+                        "C18" => c18::replay(ctx, &case),
+                        "C19" => c19::replay(ctx, &case),
+                        _ => usage(),
+    }
+}
+
+/// committed regression inputs of this property (one per open known finding, plus fixed ones): replayed first in every tier
+fn run_regressions(ctx: &Ctx, id: &str) {
+    let dir = format!("{}/regress/{}", verif_dir(), id);
+    let Ok(rd) = std::fs::read_dir(&dir) else { return };
+    let mut files: Vec<_> = rd.filter_map(|e| e.ok()).map(|e| e.path()).filter(|p| p.extension().is_some_and(|x| x == "json")).collect();
+    files.sort();
+    for f in files {
+        let Ok(text) = std::fs::read_to_string(&f) else { continue };
+        let Ok(v) = serde_json::from_str::<serde_json::Value>(&text) else { continue };
+        let case = if v.get("case").is_some() { v["case"].clone() } else { v };
+        replay_dispatch(ctx, id, &case);
+    }
+}
 
 fn usage() -> ! {
     eprintln!("usage: verif <C01..C20> <quick|thorough> | verif <id> --replay <file>");
@@ -90,6 +127,41 @@ fn main() {
         return;
     }
     let seed: u64 = std::env::var("VERIF_SEED").ok().and_then(|s| s.trim().parse::<i64>().ok()).map(|v| v as u64).unwrap_or(0);
+    if args[2] == "--minimize" {
+        // greedy minimisation of a history case: drop operations while the same signature is still produced
+        let text = std::fs::read_to_string(&args[3]).expect("read");
+        let v: serde_json::Value = serde_json::from_str(&text).expect("json");
+        let want = v["signature"].as_str().unwrap_or("").to_string();
+        let mut case = if v.get("case").is_some() { v["case"].clone() } else { v.clone() };
+        let sig_of = |case: &serde_json::Value| -> Option<String> {
+            let ctx = Ctx::new(&id, Tier::Quick, 0, true);
+            // silence: report() prints VIOLATION lines for unknown signatures; capture by reading ctx afterwards
+            replay_dispatch(&ctx, &id, case);
+            let v = ctx.violations.lock().unwrap();
+            if let Some((f, _)) = v.first() {
+                return Some(f.signature.clone());
+            }
+            let k = ctx.known_hits.lock().unwrap();
+            k.keys().next().cloned()
+        };
+        let mut changed = true;
+        while changed {
+            changed = false;
+            let n = case["ops"].as_array().map(|a| a.len()).unwrap_or(0);
+            for i in 0..n {
+                let mut c2 = case.clone();
+                c2["ops"].as_array_mut().unwrap().remove(i);
+                if sig_of(&c2).as_deref() == Some(want.as_str()) {
+                    case = c2;
+                    changed = true;
+                    break;
+                }
+            }
+        }
+        let out = serde_json::json!({"property": id, "signature": want, "case": case});
+        println!("{}", serde_json::to_string_pretty(&out).unwrap());
+        return;
+    }
     let (tier, replay) = if args[2] == "--replay" {
         if args.len() < 4 {
             usage();
@@ -118,25 +190,9 @@ fn main() {
                         std::process::exit(2)
                     });
                     let case = if v.get("case").is_some() { v["case"].clone() } else { v };
-                    match id.as_str() {
-                        "C01" => c01::replay(&ctx, &case),
-                        "C02" => c02::replay(&ctx, &case),
-                        "C08" => c08::replay(&ctx, &case),
-                        "C20" => c20::replay(&ctx, &case),
-                        "C03" => histprops::replay(&ctx, histprops::Prop::C03, &case),
-                        "C04" => histprops::replay(&ctx, histprops::Prop::C04, &case),
-                        "C05" => histprops::replay(&ctx, histprops::Prop::C05, &case),
-                        "C10" => histprops::replay(&ctx, histprops::Prop::C10, &case),
-                        "C11" => histprops::replay(&ctx, histprops::Prop::C11, &case),
-                        "C12" => c12::replay(&ctx, &case),
-                        "C06" => c06::replay(&ctx, &case),
-                        "C14" => c14::replay(&ctx, &case),
-                        "C07" => c07::replay(&ctx, &case),
-                        "C18" => c18::replay(&ctx, &case),
-                        "C19" => c19::replay(&ctx, &case),
-                        _ => usage(),
-                    }
+                    replay_dispatch(&ctx, &id, &case);
                 } else {
+                    run_regressions(&ctx, &id);
                     match id.as_str() {
                         "C01" => c01::run(&ctx),
                         "C02" => c02::run(&ctx),
@@ -151,6 +207,7 @@ fn main() {
                         "C06" => c06::run(&ctx),
                         "C14" => c14::run(&ctx),
                         "C07" => c07::run(&ctx),
+                        "C13" => c13::run(&ctx),
                         "C18" => c18::run(&ctx),
                         "C19" => c19::run(&ctx),
                         _ => usage(),
